@@ -3,7 +3,7 @@ import vpl, os
 from concurrent.futures import ThreadPoolExecutor
 
 LEVEL = "proof"
-LIBS = ["PowmLemmas.vo", "SqrtLemmas.vo", "InterpLemmas.vo"]
+LIBS = ["PowmLemmas.vo", "SqrtLemmas.vo", "InterpLemmas.vo", "PrimeLemmas.vo"]
 
 def chunks(lst, k, block=128):
     """block-wise round robin: neighbouring records (same table) stay together, expensive regions are spread over the drivers"""
